@@ -241,8 +241,9 @@ class Matrix:
                 k -= k_ * c
                 v -= v_ * c
             v2 = _vdot(v)
-            if not v2.all():
+            if not v2.any():
                 break
+            v2 = numpy.where(v2, v2, 1) # exactly converged columns: v == 0, hence c == 0 below
             c = _vdot(v, res) / v2  # min_c |res - c v| => c = v.res / v.v
             newlhs = lhs + k * c
             res = rhs - self @ newlhs  # recompute rather than update to avoid drift
